@@ -172,6 +172,26 @@ def resume_elsewhere_scenario(seed):
     return {"layer": "S", "algo": "priority", "cfg": cfg, "pipes": pipes, "steps": [], "arrivals": arrivals}
 
 
+def own_and_pool_oom_scenario(seed):
+    """overbook with memory overcommit, one pool: several one-operator pipelines with fixed memory start in the same tick; one of them needs more than
+    the whole pool (it exceeds its own limit, which is the pool's RAM), and the others together still do not fit once it is gone: an own-limit kill and
+    pool-level kills in one and the same tick"""
+    rng = random.Random(seed)
+    tps = rng.choice([1, 2, 4])
+    ram = rng.choice([32, 64])
+    cfg = {"tps": tps, "multi": rng.random() < 0.5, "over": True, "npools": 1, "cpus": rng.choice([8, 16]), "ram": fstr(ram)}
+    pipes = [{"prio": 3, "ops": [gen_e.simple_op(tps, rng.randint(2, 4), fixed=ram + rng.choice([1, 8, ram]))]}]
+    k = rng.randint(3, 5)
+    for _ in range(k):
+        pipes.append({"prio": rng.choice([1, 2, 3]), "ops": [gen_e.simple_op(tps, rng.randint(2, 5), fixed=F(ram, 2) - rng.choice([0, 1, 2]))]})
+    order = list(range(len(pipes)))
+    rng.shuffle(order)
+    nticks = 30
+    arrivals = [[] for _ in range(nticks)]
+    arrivals[0] = order
+    return {"layer": "S", "algo": "overbook", "cfg": cfg, "pipes": pipes, "steps": [], "arrivals": arrivals}
+
+
 def join_scenario(seed, algo="priority"):
     """single-operator containers on several roomy pools, a pipeline a -> {b, c (, e)} -> d whose middle operators take equally long: they are started in the
     same round, finish in the same tick and are reported together, at which moment the join operator d becomes ready.  It must be queued and assigned once."""
